@@ -48,6 +48,8 @@ type inliner struct {
 	pass    int
 	seq     int
 	notes   []string
+	// valueRewrites: method/function values turned into literals in this pass (progress without an inlining)
+	valueRewrites int
 }
 
 func (il *inliner) source(file string) []byte {
@@ -202,8 +204,6 @@ func inlinePass(ref RefDecls, pkgs []*packages.Package, overlay map[string][]byt
 				decls[obj] = di
 				sig := obj.Type().(*types.Signature)
 				switch {
-				case sig.Variadic():
-					di.ok, di.why = false, "variadic"
 				case hasTypeParam(sig) || sig.TypeParams().Len() > 0 || sig.RecvTypeParams().Len() > 0:
 					di.ok, di.why = false, "generic"
 				}
@@ -271,6 +271,9 @@ func inlinePass(ref RefDecls, pkgs []*packages.Package, overlay map[string][]byt
 			}
 			il.fe(tf.Name()).edits = append(il.fe(tf.Name()).edits, textEdit{tf.Offset(start), tf.Offset(di.decl.End()), blankLines(il.source(tf.Name())[tf.Offset(start):tf.Offset(di.decl.End())]), 0})
 		}
+	}
+	if il.valueRewrites > 0 {
+		changed = true
 	}
 	if !changed {
 		return nil, nil, false
@@ -513,7 +516,15 @@ func (il *inliner) inlineInFile(pk *packages.Package, f *ast.File, nf map[*types
 		}
 		return visit(n)
 	})
-	// every other reference to a new function (method values, function values) keeps it alive
+	// every other reference to a new function keeps it alive; a method value x.m / function value f becomes
+	// func(p...) { return x.m(p...) } first, so that the next pass can inline the call
+	selOf := map[*ast.Ident]*ast.SelectorExpr{}
+	ast.Inspect(f, func(n ast.Node) bool {
+		if s, ok := n.(*ast.SelectorExpr); ok {
+			selOf[s.Sel] = s
+		}
+		return true
+	})
 	for id, o := range info.Uses {
 		fo, ok := o.(*types.Func)
 		if !ok {
@@ -527,6 +538,58 @@ func (il *inliner) inlineInFile(pk *packages.Package, f *ast.File, nf map[*types
 			continue
 		}
 		remaining[fo]++
+		di := decls[fo]
+		if di == nil || !di.ok || di.pk != pk {
+			continue
+		}
+		var node ast.Expr = id
+		if s := selOf[id]; s != nil {
+			if sel := info.Selections[s]; sel == nil || sel.Kind() != types.MethodVal || len(sel.Index()) != 1 {
+				continue
+			}
+			node = s
+		} else if fo.Type().(*types.Signature).Recv() != nil {
+			continue
+		}
+		sig := fo.Type().(*types.Signature)
+		bad := false
+		tt := func(t types.Type) string {
+			if hasTypeParam(t) {
+				bad = true
+			}
+			return types.TypeString(t, func(p *types.Package) string {
+				if p == pk.Types {
+					return ""
+				}
+				return il.alias(file, p.Path())
+			})
+		}
+		il.seq++
+		var ps, as []string
+		for i := 0; i < sig.Params().Len(); i++ {
+			n := fmt.Sprintf("inl%d_%d_v%d", il.pass, il.seq, i)
+			if sig.Variadic() && i == sig.Params().Len()-1 {
+				ps = append(ps, n+" ..."+tt(sig.Params().At(i).Type().(*types.Slice).Elem()))
+				as = append(as, n+"...")
+			} else {
+				ps = append(ps, n+" "+tt(sig.Params().At(i).Type()))
+				as = append(as, n)
+			}
+		}
+		var rs []string
+		for i := 0; i < sig.Results().Len(); i++ {
+			rs = append(rs, tt(sig.Results().At(i).Type()))
+		}
+		if bad {
+			continue
+		}
+		ret := ""
+		if len(rs) > 0 {
+			ret = "return "
+		}
+		lit := "func(" + strings.Join(ps, ", ") + ") (" + strings.Join(rs, ", ") + ") { " + ret + text(node) + "(" + strings.Join(as, ", ") + ") }"
+		il.fe(file).edits = append(il.fe(file).edits, textEdit{tf.Offset(node.Pos()), tf.Offset(node.End()), lit, il.seq})
+		il.valueRewrites++
 	}
 }
 
@@ -566,12 +629,31 @@ func (il *inliner) inlineCall(pk *packages.Package, f *ast.File, file string, st
 		}
 		paramVars = append(paramVars, sig.Recv())
 	}
-	if len(call.Args) != sig.Params().Len() || call.Ellipsis.IsValid() {
+	np := sig.Params().Len()
+	if sig.Variadic() {
+		if len(call.Args) < np-1 || (call.Ellipsis.IsValid() && len(call.Args) != np) {
+			return false
+		}
+		if len(call.Args) == 1 && np > 1 {
+			return false // f(g()) with a tuple
+		}
+	} else if len(call.Args) != np || call.Ellipsis.IsValid() {
 		return false
 	}
+	variadicExtra := []string(nil)
 	for i, a := range call.Args {
+		if sig.Variadic() && i >= np-1 && !call.Ellipsis.IsValid() {
+			variadicExtra = append(variadicExtra, text(a))
+			continue
+		}
 		argTexts = append(argTexts, text(a))
 		paramVars = append(paramVars, sig.Params().At(i))
+	}
+	variadicLit := -1
+	if sig.Variadic() && !call.Ellipsis.IsValid() {
+		variadicLit = len(argTexts)
+		argTexts = append(argTexts, "") // filled in below, once the type text is known
+		paramVars = append(paramVars, sig.Params().At(np-1))
 	}
 	// parameter names as declared
 	var paramNames []string
@@ -623,6 +705,14 @@ func (il *inliner) inlineCall(pk *packages.Package, f *ast.File, file string, st
 			}
 			return il.alias(file, p.Path())
 		})
+	}
+
+	if variadicLit >= 0 {
+		if len(variadicExtra) == 0 {
+			argTexts[variadicLit] = "nil"
+		} else {
+			argTexts[variadicLit] = typeText(sig.Params().At(np-1).Type()) + "{" + strings.Join(variadicExtra, ", ") + "}"
+		}
 	}
 
 	// ---- shadowing: package-level and universe names of the body must mean the same at the call site
@@ -878,14 +968,41 @@ func (il *inliner) inlineCall(pk *packages.Package, f *ast.File, file string, st
 		// defer f(x) / go f(x): keep the statement, replace the callee by a function literal
 		var lb strings.Builder
 		lb.WriteString("func(")
+		// a method: the receiver is captured (as it was when the body was a closure of this function) unless its
+		// name means something else at the call site
+		skip := -1
+		bind := ""
+		if sig.Recv() != nil {
+			rn := paramNames[0]
+			switch {
+			case rn == "_":
+				skip = 0
+			case argTexts[0] == rn:
+				skip = 0
+			default:
+				if _, o := callScope.LookupParent(rn, call.Pos()); o == nil {
+					skip = 0
+					bind = fmt.Sprintf("{ var %s %s = %s; _ = %s; ", rn, typeText(paramVars[0].Type()), argTexts[0], rn)
+				}
+			}
+		}
+		first := true
 		for i, n := range paramNames {
-			if i > 0 {
+			if i == skip {
+				continue
+			}
+			if !first {
 				lb.WriteString(", ")
 			}
+			first = false
 			if n == "_" {
 				n = fmt.Sprintf("%s_p%d", k, i)
 			}
-			fmt.Fprintf(&lb, "%s %s", n, typeText(paramVars[i].Type()))
+			if sig.Variadic() && i == len(paramNames)-1 {
+				fmt.Fprintf(&lb, "%s ...%s", n, typeText(paramVars[i].Type().(*types.Slice).Elem()))
+			} else {
+				fmt.Fprintf(&lb, "%s %s", n, typeText(paramVars[i].Type()))
+			}
 		}
 		lb.WriteString(") ")
 		if nres > 0 {
@@ -921,7 +1038,22 @@ func (il *inliner) inlineCall(pk *packages.Package, f *ast.File, file string, st
 		if bad {
 			return false
 		}
-		fe.edits = append(fe.edits, textEdit{callStart, callEnd, lb.String() + "(" + strings.Join(argTexts, ", ") + ")", g})
+		var callArgs []string
+		for i, a := range argTexts {
+			if i == skip {
+				continue
+			}
+			if sig.Variadic() && i == len(argTexts)-1 {
+				a += "..."
+			}
+			callArgs = append(callArgs, a)
+		}
+		fe.edits = append(fe.edits, textEdit{callStart, callEnd, lb.String() + "(" + strings.Join(callArgs, ", ") + ")", g})
+		if bind != "" {
+			so, eo := tf.Offset(ins.stmt.Pos()), tf.Offset(ins.stmt.End())
+			fe.edits = append(fe.edits, textEdit{so, so, bind, g})
+			fe.edits = append(fe.edits, textEdit{eo, eo, " }", g})
+		}
 		return true
 	}
 	repl := strings.Join(resTemps, ", ")
